@@ -122,8 +122,19 @@ Inductive sdisp :=
 
 Definition lang_env := Z -> option sdisp.
 
+(* s.erase(s.find_last_not_of('0') + 1); if (s.back() == '.') s.pop_back();
+   (the text of a double always contains a byte other than '0') *)
+Fixpoint drop_zeros (r : bytes) : bytes :=
+  match r with c :: r' => if c =? 48 then drop_zeros r' else r | [] => [] end.
+Definition trim_zeros (s : bytes) : bytes :=
+  match drop_zeros (rev s) with
+  | c :: r' => if c =? 46 then rev r' else rev (c :: r')
+  | [] => []
+  end.
+
 Definition piece_text (par : f64) (p : tpiece) : option bytes :=
   match p with
+  | PToStringTrim => match to_string_f64 par with Some t => Some (trim_zeros t) | None => None end
   | PLit s => Some s
   | PToString => to_string_f64 par
   | PToStringInt => match cast_int par with Some z => Some (to_string_int z) | None => None end
